@@ -17,7 +17,7 @@ RULE = ("cases = scripts with 1..3 CREATE SEQUENCE statements between neighbour 
         "(exhaustive over orders, seeded choice of spelling variant and value), then random; values from {0, +-1, +-small, "
         "+-2^31, +-(2^63-1), -2^63, leading '+'}; keyword case random; one option per line or single line. "
         "Non-trivial = at least one option present; distinct = distinct DDL text."
-        " Added after seeded defects: verbatim names with dots inside quotes and names spelled like the option keywords behind a schema, scripts with CRLF line ends.")
+        " Added after seeded defects: verbatim names with dots inside quotes and names spelled like the option keywords behind a schema, scripts with CRLF line ends, statements without ';' closed by the start of the next CREATE statement.")
 ASSUMPTIONS = ["each option appears at most once per sequence", "IF NOT EXISTS on sequences is not named by the property and not generated"]
 MIN_EVENTS = {"statements": 50, "run_return": 50}
 
@@ -127,6 +127,10 @@ def build_case(rng, orders, gen):
         nb = rng.choice(NEIGHBOURS) % n
         stmts.append(nb)
         plan.append({"kind": "neighbour", "ddl": nb})
+    for q in range(len(stmts) - 1):
+        # a statement without ';', closed by the start of the next one (which begins a line with CREATE): nothing of it may be lost
+        if rng.random() < 0.15 and stmts[q].endswith(";") and stmts[q + 1].lstrip().upper().startswith("CREATE ") and "LIKE" not in stmts[q].upper():
+            stmts[q] = stmts[q][:-1]
     ddl = finish_script(stmts)
     if rng.random() < 0.25:
         ddl = ddl.replace("\n", "\r\n")               # the same script with Windows line ends
